@@ -641,6 +641,12 @@ _RAW_SEEDS = [
     ("oneline-loop", "while", "def f(a, b):\n    while a is True: a = False\n"),
     ("oneline-raise", "raise call", "def f(a, b):\n    raise ValueError(a)\n"),
     ("oneline-for", "for call", "def f(a, b):\n    for v in range(2): b = v\n"),
+    # a string method that is only REFERENCED (bound method stored), at the positions where the dynamic
+    # seeding adapter looks for the LOAD_ATTR of a call
+    ("methref-startswith", "assign return", "def f(a, b):\n    g = str(a).startswith\n    return b\n"),
+    ("methref-isdigit", "assign return", "def f(a, b):\n    g = str(a).isdigit\n    return None\n"),
+    ("methref-endswith-arg", "assign return call",
+     "def f(a, b):\n    s = str(a)\n    g = (s.endswith, b)\n    return len(g)\n"),
 ]
 
 
